@@ -552,6 +552,20 @@ class Extractor:
             if depth > 6:
                 raise AnalysisError("validate: call depth")
             return self.call(m2, c2, states, depth + 1)
+        if isinstance(st, ast.Try) and not st.finalbody and not st.orelse and len(st.body) == 1 and st.handlers \
+                and isinstance(st.body[0], ast.Expr) and isinstance(st.body[0].value, ast.Call) \
+                and canon(st.body[0].value.func) in ("operator.index", "index", "int") and len(st.body[0].value.args) == 1 \
+                and self.var_of(st.body[0].value.args[0]) is not None \
+                and all(h.type is not None and "TypeError" in [canon(x) for x in (h.type.elts if isinstance(h.type, ast.Tuple) else [h.type])]
+                        and h.body and isinstance(h.body[-1], ast.Raise) for h in st.handlers):
+            # type test `try: operator.index(self.X) except TypeError: raise ...`: integers pass, None and symbols
+            # (objects that are not integers) are refused
+            v = self.var_of(st.body[0].value.args[0])
+            out_ = []
+            for s_ in states:
+                d = s_[v]
+                out_ += self._set(s_, v, d.with_(none=False, syms=frozenset()))
+            return out_
         raise AnalysisError("validate: statement outside the vocabulary: %s" % canon(st)[:70])
 
     _ret = None
